@@ -162,27 +162,27 @@ def walk (env : PEnv) (orc : EvalOracles) (expr : Expr) : Nat → Maildir → Ma
       | _ => pure ({ st with error := true }, md)
 
 /-- `maildir_stdin`: spool standard input into a temporary maildir. `true` = failed. -/
-def copyStdin (fd : Handle) : Nat → Prog Bool
-  | 0 => pure true
-  | fuel + 1 => do
+def copyStdin (fd : Handle) : Nat → Bytes → Prog Bool
+  | 0, _ => pure true
+  | fuel + 1, input => do
     let r ← call (.read 0)
     match r with
     | .ok nr =>
       if nr == 0 then pure false
       else
-        let rec wr (fuel2 : Nat) (left : Nat) : Prog Bool :=
+        let rec wr (fuel2 : Nat) (chunk : Bytes) : Prog Bool :=
           match fuel2 with
           | 0 => pure true
           | f + 1 =>
-            if left == 0 then pure false
+            if chunk.isEmpty then pure false
             else do
-              let w ← call (.write fd left)
+              let w ← call (.write fd chunk)
               match w with
-              | .ok nw => if nw == 0 then pure true else wr f (left - nw)
+              | .ok nw => if nw == 0 then pure true else wr f (chunk.drop nw)
               | _ => pure true
         do
-          let e ← wr (nr + 1) nr
-          if e then pure true else copyStdin fd fuel
+          let e ← wr (nr + 1) (input.take nr)
+          if e then pure true else copyStdin fd fuel (input.drop nr)
     | _ => pure true
 
 def maildirStdin (env : PEnv) (input : Bytes) : Prog (Maildir × Bool × Option Bytes) := do
@@ -207,7 +207,7 @@ def maildirStdin (env : PEnv) (input : Bytes) : Prog (Maildir × Bool × Option 
             match g with
             | none => pure (md2, true, none)
             | some (fd, name) =>
-              let e1 ← copyStdin fd (input.length + 2)
+              let e1 ← copyStdin fd (input.length + 2) input
               let e2 ← (if e1 then pure true else do
                 let r ← call (.fsync fd)
                 pure (!isOk r))
@@ -240,19 +240,22 @@ def closeStdin (md : Maildir) : Prog Unit := do
   | some d => let _ ← call (.closedir d)
   | none => pure ()
 
+/-- The exit status `main` computes from its flags. -/
+def exitStatus (env : PEnv) (st : MainSt) : Nat :=
+  if env.stdinMode then (if st.error then Gen.exTempfail else if st.reject then Gen.exPermfail else 0)
+  else (if st.error then 1 else 0)
+
 /-- `main` after option parsing. Returns the exit status and the final loop state. -/
 def mainP (env : PEnv) (orc : EvalOracles) (confOk : Bool) (conf : List ConfBlock) (files : Files) (input : Bytes) :
     Prog (Nat × MainSt) := do
   let st0 : MainSt := { files := files, error := false, reject := false, log := [] }
-  let finish (st : MainSt) : Nat :=
-    if env.stdinMode then (if st.error then Gen.exTempfail else if st.reject then Gen.exPermfail else 0)
-    else (if st.error then 1 else 0)
+  let finish (st : MainSt) : Nat × MainSt := (exitStatus env st, st)
   let r ← call (.fopen env.confpath)
   match r with
   | .ok h =>
     let _ ← call (.fclose h)
-    if !confOk then pure (finish { st0 with error := true }, st0)
-    else if env.syntaxOnly then pure (finish st0, st0)
+    if !confOk then pure (finish { st0 with error := true })
+    else if env.syntaxOnly then pure (finish st0)
     else
       let rec blocks (bs : List ConfBlock) (st : MainSt) : Prog MainSt :=
         match bs with
@@ -289,8 +292,8 @@ def mainP (env : PEnv) (orc : EvalOracles) (confOk : Bool) (conf : List ConfBloc
           let st' ← paths b.paths st
           blocks rest st'
       let stf ← blocks conf st0
-      pure (finish stf, stf)
-  | _ => pure (finish { st0 with error := true }, st0)
+      pure (finish stf)
+  | _ => pure (finish { st0 with error := true })
 
 /-! ## interpreters -/
 
@@ -300,22 +303,17 @@ inductive Conf (α : Type) where
   | diverge (pos : Nat) (expected : Call) (got : Option Call)
   | impossible (pos : Nat) (c : Call) (r : Res)          -- result cannot happen in the abstract file system
 
-/-- What a `write`/`fprintf` of the program transfers is known to the caller through `payload`. -/
-def conform {α} (payload : Call → World → Bytes) : Prog α → World → List (Call × Res) → Nat → Conf α
+/-- Walk the observed trace along the program. -/
+def conform {α} : Prog α → World → List (Call × Res) → Nat → Conf α
   | .ret a, w, tr, _ => .done a w tr
   | .call c k, w, tr, pos =>
     match tr with
     | [] => .diverge pos c none
     | (c', r) :: rest =>
-      if c' != c then .diverge pos c (some c')
+      if !c.same c' then .diverge pos c (some c')
       else
         match applyOk w c r with
         | none => .impossible pos c r
-        | some w1 =>
-          let w2 := match c, r with
-            | .write fd _, .ok n => applyWrite w1 fd (payload c w) n
-            | .fprintf fd _, .ok n => applyWrite w1 fd (payload c w) n
-            | _, _ => w1
-          conform payload (k r) { w2 with trace := w2.trace ++ [(c, r)] } rest (pos + 1)
+        | some w1 => conform (k r) { w1 with trace := w1.trace ++ [(c, r)] } rest (pos + 1)
 
 end Mdsort.Model
